@@ -63,6 +63,7 @@ def one(spec, confirm):
                                 "wall_s": round(time.time() - t, 1), "lines": [l[:400].replace(vc, "/verif") for l in lines[:6]],
                                 "repo_head": sh("git -C /repo rev-parse --short HEAD")[1].strip(),
                                 "verif_head": sh("git -C %s rev-parse --short HEAD" % V)[1].strip()}
+            res["checks"][c]["by_crash_only"] = bool(lines) and all("check crashed" in l or l.startswith("VIOLATION") for l in lines) and any("check crashed" in l for l in lines)
             if rcc != 0 and not lines:
                 res["checks"][c]["tail"] = oc[-600:]
         res["ran"] = ["VERIF_REPO=<scratch worktree with the change> ./bin/check %s --tier quick" % c for c in checks]
@@ -77,7 +78,8 @@ def one(spec, confirm):
     json.dump(meta, open(os.path.join(sd, "meta.json"), "w"), indent=1)
     if meta.get("benign"):
         return name, {c: ("FALSE ALARM" if r["rc"] != 0 else "quiet") for c, r in res["checks"].items() if c in checks}, res.get("error")
-    return name, {c: ("caught" if r["detected"] else "MISSED (rc=%s)" % r["rc"]) for c, r in res["checks"].items() if c in checks}, res.get("error")
+    return name, {c: (("caught (only by a crash of the check)" if r.get("by_crash_only") else "caught") if r["detected"] else "MISSED (rc=%s)" % r["rc"])
+                  for c, r in res["checks"].items() if c in checks}, res.get("error")
 
 
 def main():
